@@ -42,6 +42,30 @@ def processLine (line : String) : String :=
       else if a != 1 then s!"PROP C15 concurrent-publishes-of-one-id-accepted-{a}-times {tag}"
       else if nat j "ownStored" != a then s!"PROP C15 refused-publish-left-items-behind-under-concurrency own-stored={nat j "ownStored"} accepted={a} {tag}"
       else "ok"
+    | "bucket" =>
+      let a := nat j "accepted"; let b := nat j "burst"
+      if a > b then s!"PROP C12 rate-window-bound-exceeded-under-concurrency accepted={a} burst={b} (worst of {nat j "iterations"} simultaneous volleys on the bucket object) {tag}"
+      else "ok"
+    | "depth-batch" =>
+      -- C12 / C15: batches that fit alone but not together: the queue never ends above max_depth, accepted batches are stored whole
+      let act := nat j "active"; let d := nat j "maxDepth"
+      if nat j "other" != 0 then s!"DIVERGE concx depth-batch: unexpected status {tag}"
+      else if act > d then s!"PROP C12,C15 queue-above-max-depth-after-concurrent-publishes active={act} maxDepth={d} {tag}"
+      else if act != nat j "prefilled" + nat j "accepted" * nat j "batch" then s!"PROP C15 accepted-batches-and-stored-items-differ active={act} {tag}"
+      else "ok"
+    | "ack-vs-cancel" =>
+      -- C04 / C02 / C14: a lease voided by a cancel cannot also be acked; exactly one of the two calls takes effect
+      if nat j "both" != 0 then s!"PROP C04,C02,C14 ack-and-cancel-of-one-message-both-reported-success count={nat j "both"} {tag}"
+      else if nat j "wrongState" != 0 then s!"PROP C04,C02 winner-of-ack-vs-cancel-not-reflected-in-the-state count={nat j "wrongState"} {tag}"
+      else if nat j "neither" != 0 then s!"DIVERGE concx ack-vs-cancel: neither call succeeded for {nat j "neither"} messages {tag}"
+      else "ok"
+    | "stale-ack" =>
+      if nat j "answeredSuccess" != 0 then s!"PROP C04 stale-ack-answered-success-while-a-duplicate-was-in-flight count={nat j "answeredSuccess"} {tag}"
+      else "ok"
+    | "reload-raise-inflight" =>
+      if !(bool j "reloadOK") || nat j "first" != 202 then s!"DIVERGE concx reload-raise-inflight: scenario did not run as intended {tag}"
+      else if nat j "replay" == 202 then s!"PROP C09 replay-accepted-after-a-request-served-during-a-tolerance-raising-reload {tag}"
+      else "ok"
     | _ => "ok"
 
 end Hk.DriveConcX
